@@ -6,9 +6,9 @@ def configs(tier, seed):
     cfgs = []
     top = 5 if tier == "quick" else 8
     for max_k in range(1, top + 1):
-        cfgs.append(dict(kind="select", model="knn", max_k=max_k, weight=2 ** max_k))
+        cfgs.append(dict(kind="select", model="knn", max_k=max_k, weight=2 ** max_k, wstride=1))
         for min_k in range(1, max_k + 1):
-            cfgs.append(dict(kind="select", model="uns", min_k=min_k, max_k=max_k, weight=2 ** (max_k - min_k)))
+            cfgs.append(dict(kind="select", model="uns", min_k=min_k, max_k=max_k, weight=2 ** (max_k - min_k), wstride=1))
     # the criterion of the unsupervised model against its definition (the accuracy criterion is C20's subject)
     for n, k in ([(2, 1), (3, 1), (3, 2)] if tier == "quick" else [(2, 1), (3, 1), (3, 2), (4, 1), (4, 2)]):
         for branch in ("pre", "fn"):
